@@ -277,36 +277,56 @@ impl<'a> Reader<'a> {
         Ok(())
     }
 
-    fn read_file(&mut self) -> anyhow::Result<()> {
-        self.read_signature()?;
+    /// Reads one record.
+    fn read_record(&mut self) -> std::io::Result<()> {
+        let mut len = self.read_u16()?;
+        let mask = 0b1000_0000_0000_0000;
+        if len & mask == 0 {
+            self.read_path(len as usize)
+        } else {
+            len &= !mask;
+            self.read_build(len as usize)
+        }
+    }
+
+    /// Reads the file, returning the length of its valid prefix.
+    /// If n2 was killed while appending, the file ends in a partial record (or
+    /// partial signature); everything before it is still good.
+    fn read_file(&mut self) -> anyhow::Result<u64> {
+        use std::io::Seek;
+        match self.read_signature() {
+            Ok(()) => {}
+            Err(err) => match err.downcast_ref::<std::io::Error>() {
+                Some(io) if io.kind() == std::io::ErrorKind::UnexpectedEof => return Ok(0),
+                _ => return Err(err),
+            },
+        }
         loop {
-            let mut len = match self.read_u16() {
-                Ok(r) => r,
-                Err(err) if err.kind() == std::io::ErrorKind::UnexpectedEof => break,
+            let valid_len = self.r.stream_position()?;
+            match self.read_record() {
+                Ok(()) => {}
+                Err(err) if err.kind() == std::io::ErrorKind::UnexpectedEof => return Ok(valid_len),
                 Err(err) => bail!(err),
-            };
-            let mask = 0b1000_0000_0000_0000;
-            if len & mask == 0 {
-                self.read_path(len as usize)?;
-            } else {
-                len &= !mask;
-                self.read_build(len as usize)?;
             }
         }
-        Ok(())
     }
 
     /// Reads an on-disk database, loading its state into the provided Graph/Hashes.
-    fn read(f: &mut File, graph: &mut Graph, hashes: &mut Hashes) -> anyhow::Result<IdMap> {
+    /// Also returns the length of the valid prefix of the file.
+    fn read(
+        f: &mut File,
+        graph: &mut Graph,
+        hashes: &mut Hashes,
+    ) -> anyhow::Result<(IdMap, u64)> {
         let mut r = Reader {
             r: std::io::BufReader::new(f),
             ids: IdMap::default(),
             graph,
             hashes,
         };
-        r.read_file()?;
+        let valid_len = r.read_file()?;
 
-        Ok(r.ids)
+        Ok((r.ids, valid_len))
     }
 }
 
@@ -318,8 +338,17 @@ pub fn open(path: &Path, graph: &mut Graph, hashes: &mut Hashes) -> anyhow::Resu
         .open(path)
     {
         Ok(mut f) => {
-            let ids = Reader::read(&mut f, graph, hashes)?;
-            Ok(Writer::from_opened(ids, f))
+            let (ids, valid_len) = Reader::read(&mut f, graph, hashes)?;
+            if valid_len < f.metadata()?.len() {
+                // Drop a partially written tail so that new records don't
+                // get appended after garbage.
+                f.set_len(valid_len)?;
+            }
+            let mut w = Writer::from_opened(ids, f);
+            if valid_len == 0 {
+                w.write_signature()?;
+            }
+            Ok(w)
         }
         Err(err) if err.kind() == std::io::ErrorKind::NotFound => {
             let w = Writer::create(path)?;
